@@ -370,26 +370,38 @@ Definition zmax (l : list Z) : Z := fold_right Z.max (hd 0 l) l.
 Definition lin_nodes (lo hi k : Z) : list Z :=
   map (fun i => if k =? 1 then lo else lo + Z.of_nat i * ((hi - lo) / (k - 1)))
       (seq 0 (Z.to_nat k)).
-Definition mesh_fake (xa ya : option Z) (_ _ : Z) (xc yc : list fv)
+(* accuracies are written as node counts k (accuracy = range/(k - 1/2));
+   [Some 0] is the user value 0.  core.py: "if xacc is None or xacc == 0:
+   xacc = xacc_sc / 5", independently for the two axes; [dx dy] are the
+   default counts that the (stand-in) Doane spacing yields *)
+Definition acc_or_default (user : option Z) (dflt : Z) : Z :=
+  match user with
+  | None => dflt
+  | Some k => if k =? 0 then dflt else k
+  end.
+Definition mesh_fake (xa ya : option Z) (dx dy : Z) (xc yc : list fv)
   : option (list fv * list fv) :=
-  match xa, ya, xc with
-  | Some kx, Some ky, _ :: _ =>
+  match xc with
+  | _ :: _ =>
+      let kx := acc_or_default xa dx in
+      let ky := acc_or_default ya dy in
       let gx := lin_nodes (zmin (map snd xc)) (zmax (map snd xc)) kx in
       let gy := lin_nodes (zmin (map snd yc)) (zmax (map snd yc)) ky in
       Some (flat_map (fun x => map (fun _ => (0, x)) gy) gx,
             flat_map (fun _ => map (fun y => (0, y)) gy) gx)
-  | _, _, _ => None
+  | [] => None
   end.
 
-(* case = (enable, mask, xs, ys, kx, ky, none) *)
+(* case = (enable, mask, xs, ys, xacc, yacc, kd, none): xacc / yacc = None,
+   Some 0 or Some k; kd = node count of the default spacing *)
 Definition contour_flat
-           (case : bool * list bool * list fv * list fv * Z * Z * bool)
-  : list Z :=
-  let '(enable, mask, xs, ys, kx, ky, none) := case in
+           (case : bool * list bool * list fv * list fv * option Z *
+                   option Z * Z * bool) : list Z :=
+  let '(enable, mask, xs, ys, xa, ya, kd, none) := case in
   let fall := filter_all enable mask xs in
   match kde_contour fv fnan logf_enc logf_enc bool fake_core_b
-                    (fun b => b) fone Z (fun _ => 0) mesh_fake fall none
-                    Lin Lin (Some kx) (Some ky) xs ys with
+                    (fun b => b) fone Z (fun _ => kd) mesh_fake fall none
+                    Lin Lin xa ya xs ys with
   | None => [1]
   | Some (mx, my, dens) =>
       0 :: zlen mx :: flat_map enc_fv mx ++ flat_map enc_fv my
